@@ -81,6 +81,13 @@ def skeleton(eng, name, P):
         return [[('IF', q_hole(eng, '0', ['is_file', 'is_dir', 'exists', 'list_dir'], roles),
                   [('BF', t, bf_opts(eng, '0', ['ok', 'raise_after']), [])],
                   [q_hole(eng, '1', kinds, roles)])]]
+    if name == 'A5c':
+        # a build_file nested below the (unfinished) output path of its enclosing build_file, which may have written its
+        # file already
+        o = bf_opts(eng, '0', modes)
+        o['write_first'] = bool(eng.choose('wf', 2))
+        return [[('BF', TS, o, [('BF', T2, bf_opts(eng, '1', ['ok', 'raise_after'], catch=True), [])]),
+                 q_hole(eng, '0', kinds, [P1, TS])]]
     if name == 'A9':
         # a build_file function that asks about its own output directory and then reads an input; afterwards the root asks
         # about the directory (the interesting histories change the input, so the replay of the record stops half-way)
@@ -106,7 +113,7 @@ def skeleton(eng, name, P):
         t = pick(eng, 't', [T1, T2])
         par = P1 if t == T1 else TS
         return [[('SB', 's', {}, [('BF', t, bf_opts(eng, '0', FAIL_MODES[:3], catch=True),
-                                   [q_hole(eng, '0', ['list_dir', 'is_dir', 'walk'], [par, P1])]),
+                                   [q_hole(eng, '0', P.get('inner_kinds', ['list_dir', 'is_dir', 'walk']), [par, P1])]),
                                   q_hole(eng, '1', ['list_dir', 'is_dir', 'walk', 'exists'], [par, P1])])]]
     if name == 'B3':
         ms = [pick(eng, 'm%d' % i, ['ok', 'raise_before', 'raise_after']) for i in range(3)]
